@@ -1260,6 +1260,25 @@ func (f *frame) callModPats(cc *ssa.CallCommon, li *loopInfo, all func(string), 
 			}
 			return pats
 		}
+		// a call through a function-valued variable or field that has a contract
+		if name := funcVarName(f.fn, cc.Value); name != "" {
+			if spec := vc.Eng.Spec.Funcs[FuncName(f.fn)+"."+name]; spec != nil && spec.HasAssign {
+				if len(spec.Assigns) == 0 {
+					return nil
+				}
+			}
+		}
+		if ld, ok := cc.Value.(*ssa.UnOp); ok {
+			if fa, ok := ld.X.(*ssa.FieldAddr); ok {
+				if pt, ok := fa.X.Type().Underlying().(*types.Pointer); ok {
+					if st0, ok := pt.Elem().Underlying().(*types.Struct); ok {
+						if spec := vc.Eng.Spec.Funcs[ifaceKey(pt.Elem(), st0.Field(fa.Field).Name())]; spec != nil && spec.HasAssign && len(spec.Assigns) == 0 {
+							return nil
+						}
+					}
+				}
+			}
+		}
 		all("dynamic call")
 		return nil
 	}
